@@ -58,6 +58,10 @@ ASSUMPTIONS = [
     "WOFF2 table bytes are reconstructed by design (glyf/loca transform): for WOFF2 with transformed tables only the outcome type is checked",
     "'cannot be decoded' means decompile raises at access time with lazy=False (DESIGN 4a i); errors deferred by lazy sub-structures are counted, not asserted",
     "a kept 'head' is compared modulo bytes 8-11 (checkSumAdjustment is owned by the container writer)",
+    "the re-save of a font with a raw fallback table is checked with recalcBBoxes=False and recalcTimestamp=False (save must not need to derive other tables from the undecodable one); with the default recalculation, save() raises in maxp/hhea/head recalc when glyf/hmtx/CFF is raw - counted under fallback:info:default-recalc-save:*, not asserted",
+    "tables that save() decoded and recompiled (dependencies of the accessed table) are not compared; tables never decoded and tables kept raw must be byte-identical",
+    "worker address space is capped at 4 GB and limits are CPU-time based; hitting a limit is counted as inconclusive, never as a violation",
+    "ufoLib is exercised on the repository's own fontTools.misc.filesystem backend (third-party 'fs' import blocked in the worker), the default for users without the optional package",
     "reading files named by fea include()/TTX src=/designspace filename is documented behaviour; only evaluation as code and writes outside the requested location are violations",
     "eval() calls in otBase/otConverters/otTables evaluate expressions from the static otData tables, not from input; they are outside the canary oracle unless a canary reaches them",
     "failed-save clause covers TTFont.save / TTCollection.save / ttx -o onto an existing path; TTFont.saveXML writes progressively by design and is reported, not asserted",
@@ -456,6 +460,10 @@ def fallback_case(acc, relfile, tag, fault, case, do_save_when_decoded=False, in
             acc.label("fallback:info:fell-back-though-strict-twin-decodes")
         elif not do_save_when_decoded:
             return "decoded"
+    elif isinstance(raised, MemoryError) and not fell:
+        # allocation failures depend on the state of the heap, not only on the input
+        acc.inconclusive += 1
+        return "decoded"
     else:
         if not fell or type(t) is not DefaultTable:
             acc.fail(clause + ":keep", "not-a-raw-DefaultTable", "decompile raised %s but font[%r] is %s (ERROR attr: %s)" % (exc_kind(raised), stag, type(t).__name__, fell), case)
